@@ -7,7 +7,7 @@ import pandas as pd
 from .. import common, checklib
 from ..rtc.gen import rank, same_span
 
-LEVEL = "exploration"
+LEVEL = "proof"
 
 
 def direct_checks(nmax):
@@ -197,4 +197,4 @@ def run(report, findings):
         "rule": "level counts 1..12 x every reference / omit choice (exhaustive, direct calls), C/T/S spellings x level permutations on "
                 "str / int / unordered / ordered categorical data, coding swaps in 7 formula templates; non-trivial = all algebraic checks hold",
         "samples": [r[0] for r in res[:2]] + [r[0] for r in res[400:402]] + [r[0] for r in res[-2:]]})
-    report.assumptions = ["rank and column space are numeric"]
+    report.assumptions = list(dict.fromkeys(list(report.assumptions) + ["rank and column space are numeric"]))
